@@ -1,3 +1,4 @@
 -- root of the library: every property module (so that `lake build` checks all proofs)
 import ShootVerif.Props.C02
+import ShootVerif.Props.C13
 import ShootVerif.Props.C20
